@@ -597,6 +597,16 @@ class Interp:
     def e_BinOp(self, e, env):
         a = self.ev(e.left, env)
         b = self.ev(e.right, env)
+        if isinstance(e.op, ast.BitOr) and isinstance(a, (SymColl, SetVal)) and isinstance(b, (SymColl, SetVal)):
+            # set union: an arbitrary element of the union is an arbitrary element of one of the operands (order unknown)
+            def elem(it_, a=a, b=b):
+                src = a if it_.ctx.choice(2, 'union-side') == 0 else b
+                if isinstance(src, SymColl):
+                    return src.elem(it_)
+                if not src.elems:
+                    raise EndPath('empty operand of a set union')
+                return src.elems[it_.ctx.choice(len(src.elems), 'union-elem') if len(src.elems) > 1 else 0], []
+            return SymColl('union', elem, ordered=False)
         return self.arith(type(e.op).__name__, a, b, e)
 
     def e_BoolOp(self, e, env):
